@@ -50,8 +50,11 @@ D1(e, s) == (e.a = "validate2" /\ e.m \notin C03Excluded /\ s.v.k # "none" /\ s.
               => Outcome(e.r) = Outcome(s.v)
 
 (* ---- C15 ------------------------------------------------------------------------ *)
+(* the world-wide VAT dispatcher hands MX numbers to mx.rfc, one of the excepted formats: its N-tilde comes through *)
+ViaExcepted(e) == e.m = "vatin" /\ Len(e.r.v) >= 2 /\ SubSeq(e.r.v, 1, 2) = <<77, 88>>
+                  /\ \A i \in 1..Len(e.r.v) : e.r.v[i] < 128 \/ e.r.v[i] \in {209, 241}
 S1(e)    == (e.a \in {"validate", "validate2"} /\ e.m \notin C15Excluded /\ IsStrRet(e.r))
-              => IsAscii(e.r.v)
+              => (IsAscii(e.r.v) \/ ViaExcepted(e))
 (* observation, not part of C15 as stated: in the three formats that the property excepts because their own alphabet has   *)
 (* national letters, the non-ASCII characters of a result are those letters (umlauts and sharp s; N-tilde) and nothing else *)
 NationalLetters(m) == CASE m \in {"mx.rfc", "es.referenciacatastral"} -> {209, 241}
